@@ -121,6 +121,18 @@ func c08hq(args []string) error {
 		}
 		check(one(fmt.Sprintf("s%d.", i/25)), tag)
 	}
+	// pages with many assets (the seencheck request of one page can be large): a few of them known already, the rest
+	// new; then every one of them known
+	for _, n := range []int{99, 100, 101, 150, 250} {
+		var ts []string
+		for k := 0; k < n; k++ {
+			ts = append(ts, fmt.Sprintf("http://big%d.one.example/asset/%d.png?a=1&b=2", n, k))
+		}
+		few := c08seed("assets", fmt.Sprintf("http://big%d.one.example/first", n), []string{ts[0], ts[n/2], ts[n-1]})
+		check(few, "hq-seq")
+		check(c08seed("assets", fmt.Sprintf("http://big%d.one.example/all", n), ts), "hq-seq")
+		check(c08seed("assets", fmt.Sprintf("http://big%d.two.example/again", n), ts), "hq-seq")
+	}
 	for round := 0; round < nconc; round++ {
 		ns := fmt.Sprintf("c%d.", round)
 		var seeds []*models.Item
